@@ -337,29 +337,39 @@ prop("C19", level="model_checking", explanation="constructors: Ok <=> valid inpu
 prop("C20", level="model_checking", explanation="per type with unsafe code: constructors establish the invariant, safe methods preserve it, invariant implies each unsafe precondition; "
      "Kani's automatic pointer / unsafe-precondition / overflow checks located in /repo/src are the obligations")
 
-claim("C01", "Per-step contract decode(encode(c,e),e) == (sym,c) with invariant preservation for every state/entry at (u8,u16) on the real code; "
-      "export/import inverse and batch forms == loop; history/width generalisation by Verus lemmas.", K_NOTE, "function contracts (Kani) + Verus lemmas")
+claim("C01", "Extracted encode/decode steps == layer-B rANS steps == mathematical push/pop (Verus, 6 widths, all P) and pop(push) = id, histories of any nesting (lemmas); from_binary / "
+      "read_initial_state (= from_compressed) under contract for data of any length (Verus); Kani contracts on the real crate at (u8,u16): round trip per step, export/import inverse, batch forms == loop.",
+      K_NOTE, "Verus contracts on extracted text + lemmas; Kani function contracts")
 claim("C02", "Unbounded: extracted encode/decode/seal bodies verified against layer-B step functions (Verus, 6 widths, all P, any number of held-back words), bridged to the interval "
       "model, and lemma_message_roundtrip closes messages of any length; Kani contracts on the real crate at (u8,u16) incl. whole messages of <= 3 symbols.",
       K_NOTE + "; the composition of seal_words with the data-value predicate is checked by Kani at two width pairs, not as one Verus theorem (listed in the evidence)",
       "Verus contracts on extracted text + bridging theorems + interval lemmas; Kani function contracts")
-claim("C03", "Model contract for every constructor output within the stated bounds.", "Kani on the real model code; Vec-backed tables bounded to <= 3 entries; CDFs abstracted as arbitrary monotone functions (A-cdf)", "function contracts (Kani)")
-claim("C04", "Per-step contract encode(decode(c,e),e) == c for every invariant state; raw-binary import/export inverse for any words.", K_NOTE, "function contracts (Kani) + Verus lemmas")
+claim("C03", "Query functions of uniform / contiguous / lookup models == spec entry for every symbol and quantile, tables of any size (Verus); model contract for every constructor output within the stated bounds (Kani).",
+      "Kani on the real model code; Vec-backed tables bounded to <= 3 entries; quantiser CDFs abstracted as step-shaped / monotone stub functions; `_perfect` constructors and concrete special-function CDFs not covered",
+      "Verus contracts on extracted query functions; bounded Kani contracts on constructors")
+claim("C04", "push(pop) = id on the mathematical view (lemma) linked to the extracted steps (Verus, 6 widths); from_binary denotes exactly marker ++ data for data of any length incl. trailing zero words (Verus); "
+      "Kani: per-step contract encode(decode(c,e),e) == c for every invariant state, raw-binary import/export inverse, num_valid_bits.", K_NOTE, "Verus contracts on extracted text + lemmas; Kani function contracts")
 claim("C05", "Representations agree symbol by symbol / quantile by quantile within the stated bounds.", "Kani on the real code, bounded tables", "function contracts (Kani)")
 claim("C06", "Real encode/decode steps equal the published rANS / range-coding steps written as independent spec functions.", K_NOTE,
       "refinement of real functions to a spec function (Kani miter, Verus on extracted text)")
-claim("C07", "pos/seek contracts for ANS coder, range encoder/decoder and backends.", K_NOTE, "function contracts (Kani)")
+claim("C07", "Range coder: extracted pos / read_point / seek under contract (Verus, 6 widths, any number of held-back words, any data length), bridged to the interval model where thm_seek_coupled / "
+      "thm_seek_resumes give every later symbol wherever the decoder was before; ANS: extracted pos / seek restore the snapshot's view; Kani contracts at (u8,u16) and for the backends.", K_NOTE,
+      "Verus contracts on extracted text + interval lemmas; Kani function contracts")
 claim("C08", "Guard contracts (view == export, drop restores) for ANS, and bit-level coders.", K_NOTE, "function contracts (Kani)")
 claim("C09", "Error paths leave the coder untouched and report the documented error; models reject every out-of-support symbol value.", K_NOTE, "function contracts (Kani, Verus)")
-claim("C10", "decode steps are total from every constructible state; symbol comes from the model.", K_NOTE, "function contracts (Kani, Verus)")
+claim("C10", "Decode steps are total from every state satisfying the documented invariants (Verus: ANS, range, chain, 5-6 widths, all P; Kani (u8,u16)); the constructors establish those invariants "
+      "(from_binary, read_initial_state, read_point, ChainCoderHeads::new in Verus for data of any length); model lookups in bounds for tables of any size; quantiser search bounded (step CDFs) with a termination contract.",
+      K_NOTE, "function contracts (Verus on extracted text, Kani)")
 claim("C11", "Seal contract with arbitrary suffix for every encoder state at State = 2 Words; State wider than 2 Words is a recorded finding.", K_NOTE, "function contract on seal (Kani)")
 claim("C12", "At most one word per symbol and the integer potential inequality per step (ANS and range coder).", K_NOTE + "; A-log: passing from the product inequality to the logarithmic statement is paper mathematics",
       "function contracts (Kani) + Verus potential lemma")
-claim("C13", "Chain-coder decode/encode are mutually inverse from every head state; precision changes undo; export routes bounded.", K_NOTE + "; arbitrary heads through the cfg(constriction_verif) hook", "function contracts (Kani)")
-claim("C14", "Functional locality contract of ChainCoder::decode_symbol.", K_NOTE, "function contract (Kani)")
+claim("C13", "Chain-coder decode / encode steps and ChainCoderHeads::new under contract (Verus, 5 widths, all P, any data length); steps mutually inverse from every head state, export routes from every whole head state, "
+      "precision changes undo (Kani (u8,u16)); multi-step routes bounded.", K_NOTE + "; arbitrary heads through the cfg(constriction_verif) hook", "function contracts (Verus on extracted text, Kani)")
+claim("C14", "Functional locality contract of ChainCoder::decode_symbol (Verus, 5 widths, all P <= Word bits; Kani (u8,u16)) and of the constructors (fewest words into the head).", K_NOTE, "function contract (Verus on extracted text, Kani)")
 claim("C15", "Bounded check of both Huffman trees against a reference merge (n <= 3 quick, 4 thorough).", "bounded in n; BinaryHeap executed, not specified; optimality for all n is Huffman's theorem (paper)", "bounded Kani harness with reference")
-claim("C16", "Every bit-coder operation against the ghost bit sequence for all contents of <= 10 bits over u8 words; Exp-Golomb for every u8/u16 value (thorough).",
-      "Kani bit-precise on the real code; word type u8 (code generic in Word)", "function contracts against a ghost sequence (Kani)")
+claim("C16", "write_bit / read_bit of the stack coder, queue encoder and queue decoder against the abstract bit sequence for every word type (u8/u16/u32), fill level and backend length (Verus on extracted text); "
+      "export / re-import, guards, length and Exp-Golomb for every u8 (u16 thorough) by Kani over u8 words.",
+      "Kani parts bounded to <= 10 bits of content over u8 words (code generic in Word)", "function contracts against a ghost bit sequence (Verus on extracted text, Kani)")
 claim("C17", "Every operation of Cursor / Reverse<Cursor> / Vec against the stack/queue contract from every (buffer,pos) with <= 4 symbolic words; SmallVec and adapters bounded.",
       "Kani bit-precise on the real impls incl. get_unchecked; longer buffers by genericity in the length", "function contracts per backend operation (Kani)")
 claim("C18", "Size/emptiness/exhaustion queries equal the length of the export at the same state (ANS all widths, range encoder all situations, bit coders).", K_NOTE + "; entropy/KL diagnostics not claimed (floating-point transcendental functions)", "function contracts (Kani)")
